@@ -2344,6 +2344,10 @@ impl Node {
             let spend_type = SpendType::from_script_pubkey(&prev_outs[idx].script_pubkey);
             if spend_type == SpendType::Invalid {
                 weight_lower_bound += 0;
+            } else if spend_type == SpendType::P2tr && uck.is_none() {
+                // taproot key-path spend: the witness is a single 64 byte schnorr signature
+                // witness-header + element-count + length + sig
+                weight_lower_bound += 2 + 1 + 1 + 64;
             } else {
                 let wit_len = match uck {
                     // length-byte + witness-element
